@@ -18,7 +18,8 @@
 //   c07.known <Field> <v>                           -> <v> <flag>
 //   c07.reshare <Field> <to> <vs>                   -> <values> <flag>
 //   c07.conv <mode> <bits> <xs>                     -> <values mod l> <flag>
-//   c07.prf <k> <xs>                                -> match | mismatch …
+//   c07.prf <mode> <N> <k> <xs>                     (k, x = Fp25519 elements, 32 bytes little-endian hex; N = 1 | 16 lanes)
+//        -> <pseudonyms of H1> <agree|disagree> <(x+k)^-1 hex list> <u64::from(RP25519::from((x+k)^-1)) list>
 // Values are decimal; the flag says whether every output sharing was consistent between adjacent helpers.
 use std::{array, iter::repeat};
 
@@ -493,6 +494,102 @@ macro_rules! conv_fn {
 conv_fn!(conv_sh, semi_honest, crate::protocol::hybrid::oprf::conv_proof_chunk());
 conv_fn!(conv_mal, malicious, 1);
 
+// ---------------------------------------------------------------- eval_dy_prf (MAC-upgraded semi-honest / malicious contexts)
+fn fp_of_hex(s: &str) -> Fp25519 {
+    let b = unhex(s);
+    assert_eq!(b.len(), 32, "harness: Fp25519 elements are 32 bytes");
+    Fp25519::deserialize_infallible(generic_array::GenericArray::from_slice(&b))
+}
+
+fn fp_hex(x: Fp25519) -> String {
+    let mut buf = generic_array::GenericArray::<u8, <Fp25519 as Serializable>::Size>::default();
+    x.serialize(&mut buf);
+    hex(&buf)
+}
+
+macro_rules! prf_fn {
+    ($fname:ident, $method:ident, $n:expr) => {
+        fn $fname(req: &str, k: Fp25519, xs: &[Fp25519]) -> String {
+            use crate::protocol::{context::Validator, ipa_prf::prf_eval::eval_dy_prf};
+            const N: usize = $n;
+            let used = xs.len();
+            // pad the last chunk with the first element (never a new zero of x + k unless one is already present)
+            let mut padded = xs.to_vec();
+            while padded.len() % N != 0 || padded.is_empty() {
+                padded.push(xs.first().copied().unwrap_or(Fp25519::ONE));
+            }
+            let res = block_on_timeout(RUN_TIMEOUT_S + 5, async {
+                let w = world(req);
+                w.$method(
+                    (padded.into_iter(), k),
+                    |ctx, (x_shares, key): (Vec<AdditiveShare<Fp25519>>, AdditiveShare<Fp25519>)| async move {
+                        let chunks: Vec<AdditiveShare<Fp25519, N>> = x_shares
+                            .chunks(N)
+                            .map(|c| {
+                                let l: Vec<Fp25519> = c.iter().map(|s| s.left()).collect();
+                                let r: Vec<Fp25519> = c.iter().map(|s| s.right()).collect();
+                                AdditiveShare::<Fp25519, N>::new_arr(
+                                    <Fp25519 as Vectorizable<N>>::Array::try_from(l).unwrap(),
+                                    <Fp25519 as Vectorizable<N>>::Array::try_from(r).unwrap(),
+                                )
+                            })
+                            .collect();
+                        let ctx = ctx.set_total_records(chunks.len());
+                        let validator = ctx.validator::<Fp25519>();
+                        let ctx = validator.context();
+                        let key = &key;
+                        futures::future::try_join_all(
+                            chunks
+                                .into_iter()
+                                .enumerate()
+                                .map(|(i, x)| eval_dy_prf::<_, N>(ctx.clone(), RecordId::from(i), key, x)),
+                        )
+                        .await
+                        .map(|v| v.into_iter().flatten().collect::<Vec<u64>>())
+                        .map_err(|e| format!("{e:?}"))
+                    },
+                )
+                .await
+            });
+            let res = match res {
+                Ok(r) => r,
+                Err(e) => return e,
+            };
+            let outs: Vec<Vec<u64>> = match res.into_iter().collect::<Result<Vec<_>, _>>() {
+                Ok(o) => o,
+                Err(e) => return format!("err:{}", e.split(['(', ' ', '{']).next().unwrap_or("")),
+            };
+            let agree = outs[0] == outs[1] && outs[1] == outs[2];
+            // harness-side oracle parameters: the scalar (x + k)^-1 (checked by the driver against its own
+            // arithmetic modulo l) and the external map scalar -> base-point multiple -> compressed -> HKDF -> u64
+            let mut es = vec![];
+            let mut hs = vec![];
+            for &x in xs {
+                let d = x + k;
+                if d == Fp25519::ZERO {
+                    es.push("zero".to_string());
+                    hs.push("-".to_string());
+                } else {
+                    let e = d.invert();
+                    es.push(fp_hex(e));
+                    hs.push(u64::from(crate::ff::curve_points::RP25519::from(e)).to_string());
+                }
+            }
+            format!(
+                "{} {} {} {}",
+                nat_list(&outs[0][..used.min(outs[0].len())]),
+                if agree { "agree" } else { "disagree" },
+                if es.is_empty() { "-".into() } else { es.join(",") },
+                if hs.is_empty() { "-".into() } else { hs.join(",") }
+            )
+        }
+    };
+}
+prf_fn!(prf_sh_1, semi_honest, 1);
+prf_fn!(prf_sh_16, semi_honest, 16);
+prf_fn!(prf_mal_1, malicious, 1);
+prf_fn!(prf_mal_16, malicious, 16);
+
 pub fn exec(req: &str) -> String {
     let t: Vec<&str> = req.split(' ').collect();
     let l = |s: &str| parse_nat_list::<u128>(s);
@@ -517,6 +614,17 @@ pub fn exec(req: &str) -> String {
             "mal" => conv_mal(req, u(t[2]), &l(t[3])),
             m => panic!("harness: unknown mode {m}"),
         },
+        "c07.prf" => {
+            let k = fp_of_hex(t[3]);
+            let xs: Vec<Fp25519> = if t[4] == "-" { vec![] } else { t[4].split(',').map(fp_of_hex).collect() };
+            match (t[1], t[2]) {
+                ("sh", "1") => prf_sh_1(req, k, &xs),
+                ("sh", "16") => prf_sh_16(req, k, &xs),
+                ("mal", "1") => prf_mal_1(req, k, &xs),
+                ("mal", "16") => prf_mal_16(req, k, &xs),
+                _ => panic!("harness: no eval_dy_prf instantiation for {} N={}", t[1], t[2]),
+            }
+        }
         "c07.agg" => {
             let rows: Vec<Vec<u128>> = if t[5] == "-" { vec![] } else { t[5].split('/').map(l).collect() };
             agg_dispatch(req, t[1], u(t[2]), u(t[3]), u(t[4]), &rows)
@@ -845,4 +953,69 @@ fn gen_conv(rng: &mut Rng, thorough: bool, out: &mut Vec<String>) {
 #[test]
 fn verif_c07_conv() {
     run_suite("c07_conv", |rng, th| { let mut o = vec![]; gen_conv(rng, th, &mut o); o }, exec);
+}
+
+/// group order l of Ristretto / modulus of Fp25519, little-endian bytes
+const ELL_LE: [u8; 32] = [
+    0xed, 0xd3, 0xf5, 0x5c, 0x1a, 0x63, 0x12, 0x58, 0xd6, 0x9c, 0xf7, 0xa2, 0xde, 0xf9, 0xde, 0x14, 0, 0, 0, 0, 0, 0, 0, 0, 0, 0, 0, 0, 0, 0, 0,
+    0x10,
+];
+
+fn gen_prf(rng: &mut Rng, thorough: bool, out: &mut Vec<String>) {
+    use std::ops::Neg;
+    let small = |v: u128| Fp25519::from(v as u64) + Fp25519::from((v >> 64) as u64) * Fp25519::from(u64::MAX) + Fp25519::from((v >> 64) as u64);
+    let rand_fp = |rng: &mut Rng| {
+        let b = rng.bytes(32);
+        Fp25519::deserialize_infallible(generic_array::GenericArray::from_slice(&b))
+    };
+    let minus_one = Fp25519::ONE.neg();
+    let ks: Vec<Fp25519> = vec![Fp25519::from(3_216_412_445u64), Fp25519::ONE, minus_one, rand_fp(rng), rand_fp(rng)];
+    let reps = if thorough { 6 } else { 1 };
+    for rep in 0..reps {
+        for (ki, &k) in ks.iter().enumerate() {
+            for (mode, n) in [("sh", 1usize), ("mal", 1), ("sh", 16), ("mal", 16)] {
+                if !thorough && ki >= 3 && n == 1 {
+                    continue;
+                }
+                // boundary match keys: 0, 1, 2, l-1, l-2, 2^64-1, 2^64, duplicates, -k ± 1, 1/… ; then random 64-bit and full-range values
+                let mut xs: Vec<Fp25519> = vec![
+                    Fp25519::ZERO, Fp25519::ONE, Fp25519::from(2u64), minus_one, minus_one - Fp25519::ONE,
+                    Fp25519::from(u64::MAX), small(1u128 << 64), Fp25519::from(3u64), Fp25519::from(3u64),
+                    k.neg() + Fp25519::ONE, k.neg() - Fp25519::ONE, k, Fp25519::ONE - k,
+                ];
+                xs.retain(|&x| x + k != Fp25519::ZERO);
+                let total = if n == 16 { 32 } else { 18 };
+                while xs.len() < total {
+                    let x = match rng.below(4) {
+                        0 => rand_fp(rng),
+                        1 => *rng.pick(&xs), // repeated match key
+                        _ => Fp25519::from(rng.next_u64()),
+                    };
+                    if x + k != Fp25519::ZERO {
+                        xs.push(x);
+                    }
+                }
+                if rep > 0 {
+                    rng.shuffle(&mut xs[..]);
+                }
+                let xl: Vec<String> = xs.iter().map(|&x| fp_hex(x)).collect();
+                out.push(format!("c07.prf {mode} {n} {} {}", fp_hex(k), xl.join(",")));
+            }
+        }
+    }
+    // x + k = 0: outside the hypothesis of `prf_value`; `Scalar::batch_invert` trips its debug assertion
+    // (release builds return 0 for EVERY lane of the chunk). Position first / middle / last of a chunk.
+    let k = ks[0];
+    for (mode, n, pos) in [("sh", 1usize, 0usize), ("sh", 16, 0), ("mal", 16, 7), ("sh", 16, 15)] {
+        let mut xs: Vec<Fp25519> = (0..n).map(|i| Fp25519::from(100 + i as u64)).collect();
+        xs[pos] = k.neg();
+        let xl: Vec<String> = xs.iter().map(|&x| fp_hex(x)).collect();
+        out.push(format!("c07.prf {mode} {n} {} {}", fp_hex(k), xl.join(",")));
+    }
+    let _ = ELL_LE;
+}
+
+#[test]
+fn verif_c07_prf() {
+    run_suite("c07_prf", |rng, th| { let mut o = vec![]; gen_prf(rng, th, &mut o); o }, exec);
 }
